@@ -69,7 +69,10 @@ func (d dialect) String() string {
 }
 
 // parseInsert is a tolerant parser for INSERT INTO <table> (<cols>) VALUES (<placeholders>)[;]
-func parseInsert(stmt string, escape rune) (table string, cols []string, placeholders []string, err error) {
+// expect lists the identifiers the statement should name (table first): an identifier that contains the escape character
+// itself is only told from its surroundings by knowing it, so at each identifier position the expected one, wrapped, is tried first.
+func parseInsert(stmt string, escape rune, expect []string) (table string, cols []string, placeholders []string, err error) {
+	nIdent := 0
 	s := strings.TrimSpace(stmt)
 	s = strings.TrimSpace(strings.TrimSuffix(s, ";"))
 	pos := 0
@@ -91,6 +94,15 @@ func parseInsert(stmt string, escape rune) (table string, cols []string, placeho
 		if pos >= len(s) {
 			return "", false
 		}
+		if escape != 0 && nIdent < len(expect) {
+			w := string(escape) + expect[nIdent] + string(escape)
+			if rest := s[pos:]; strings.HasPrefix(rest, w) && (len(rest) == len(w) || strings.ContainsRune(" (),;", rune(rest[len(w)]))) {
+				pos += len(w)
+				nIdent++
+				return expect[nIdent-1], true
+			}
+		}
+		nIdent++
 		if escape != 0 && strings.HasPrefix(s[pos:], string(escape)) {
 			e := string(escape)
 			end := strings.Index(s[pos+len(e):], e)
@@ -232,6 +244,13 @@ func c19RoundTrip(t *rapid.T) {
 		pool = quotedNames
 	}
 	d.table = rapid.SampledFrom(pool).Draw(t, "table")
+	// identifiers that contain the escape character themselves, also as their first and last character: they are
+	// wrapped like any other (the statement is about the caller's name, whatever it looks like)
+	wrapNames := d.escape != 0 && rapid.IntRange(0, 5).Draw(t, "escapeinnames") == 0
+	if wrapNames {
+		e := string(d.escape)
+		d.table = rapid.SampledFrom([]string{e + "my table" + e, e + e, "a" + e + "b", e + "t", "t" + e, e + "main" + e + "." + e + "t" + e}).Draw(t, "wrappedtable")
+	}
 	maxCols := 5
 	if rapid.IntRange(0, 4).Draw(t, "wide") == 0 {
 		maxCols = 14 // two-digit placeholder numbers
@@ -247,6 +266,16 @@ func c19RoundTrip(t *rapid.T) {
 		}
 	}
 	base = renameCols(t, base, pool)
+	if wrapNames && d.escape != '"' && d.escape != '\'' && rapid.Bool().Draw(t, "wrapcol") {
+		// (column names wrapped in ' or " are not legal column names)
+		e := string(d.escape)
+		base.Cols[0].Name = rapid.SampledFrom([]string{e + "a" + e, e + e, "a" + e + "b", e + "col 1" + e}).Draw(t, "wrappedcol")
+		for i := 1; i < len(base.Cols); i++ {
+			if base.Cols[i].Name == base.Cols[0].Name {
+				base.Cols[i].Name += "2"
+			}
+		}
+	}
 	// string/enum columns not entirely null
 	for ci, c := range base.Cols {
 		if (c.Kind == hx.KString || c.Kind == hx.KEnum) && c.Len() > 0 {
@@ -303,7 +332,7 @@ func c19RoundTrip(t *rapid.T) {
 		t.Fatalf("%d statements executed for %d rows\n%s", len(m.Execs), in.N(), desc())
 	}
 	for r, call := range m.Execs {
-		table, cols, phs, err := parseInsert(call.Query, d.escape)
+		table, cols, phs, err := parseInsert(call.Query, d.escape, append([]string{d.table}, in.Names()...))
 		if err != nil {
 			t.Fatalf("statement %d is not an INSERT of the expected shape: %v: %q\n%s", r, err, call.Query, desc())
 		}
@@ -471,6 +500,11 @@ func c19ResultSet(t *rapid.T) {
 	if rapid.IntRange(0, 3).Draw(t, "decoyprecision") == 0 {
 		// an earlier Precision option that a later one overrides (also by Precision(0): no rounding)
 		fns = append([]qsql.ConfigFunc{qsql.Precision(rapid.IntRange(1, 3).Draw(t, "decoyp"))}, append(fns, qsql.Precision(precision))...)
+	}
+	if rapid.IntRange(0, 3).Draw(t, "reuseconfig") == 0 {
+		// the same option values (and the pair list behind Coerce) served an earlier read: the second read counts
+		_ = hx.Safely(func() { _ = qframe.ReadSQL(tx, fns...) })
+		m.Queries = nil
 	}
 	if perr := hx.Safely(func() {
 		if qargs != nil {
